@@ -199,7 +199,8 @@ Definition fsreq_packet_len (r : fsreq) : Z :=
 
 Definition fsreq_set_fields (raw : bytes) : res fsreq :=
   do p <- common_unpacker raw;
-  let '(a, n1, _, _, n2) := p in
+  let '(a, n1, _, idx, n2) := p in
+  if negb (idx =? len raw) then Err EValue else
   Ok {| fq_action := a; fq_first := n1;
         fq_second := match n2 with Some s => s | None => [] end |}.
 
@@ -228,6 +229,7 @@ Definition fsresp_set_fields (data : bytes) : res fsresp :=
   let '(a, n1, st, idx, n2) := p in
   do sc <- fs_status_of_int (Z.lor (Z.shiftl a 4) st);
   do m <- lv_unpack (slice_from data idx);
+  if negb (idx + lv_packet_len m =? len data) then Err EValue else
   Ok {| fp_action := a; fp_status := sc; fp_first := n1;
         fp_second := match n2 with Some s => s | None => [] end; fp_msg := m |}.
 
